@@ -3,11 +3,19 @@ use crate::core::{Ctx, Stats};
 use serde_json::Value;
 
 pub mod c01;
+pub mod c07;
+pub mod c08;
+pub mod c09;
+pub mod c12;
 pub mod c19;
 
 pub fn run(ctx: &Ctx, st: &mut Stats) -> bool {
     match ctx.prop.as_str() {
         "C01" => c01::run(ctx, st),
+        "C07" => c07::run(ctx, st),
+        "C08" => c08::run(ctx, st),
+        "C09" => c09::run(ctx, st),
+        "C12" => c12::run(ctx, st),
         "C19" => c19::run(ctx, st),
         _ => return false,
     }
@@ -17,6 +25,10 @@ pub fn run(ctx: &Ctx, st: &mut Stats) -> bool {
 pub fn replay(prop: &str, case: &Value, st: &mut Stats) -> bool {
     match prop {
         "C01" => c01::replay(case, st),
+        "C07" => c07::replay(case, st),
+        "C08" => c08::replay(case, st),
+        "C09" => c09::replay(case, st),
+        "C12" => c12::replay(case, st),
         "C19" => c19::replay(case, st),
         _ => false,
     }
